@@ -2,6 +2,7 @@ package props
 
 import (
 	"bytes"
+	"encoding/binary"
 	"fmt"
 	"io"
 	"runtime"
@@ -15,6 +16,7 @@ import (
 	"verifharness/ev"
 	"verifharness/gen"
 	"verifharness/memnet"
+	"verifharness/peer"
 	"verifharness/refcodec"
 )
 
@@ -292,6 +294,116 @@ func TestC06(t *testing.T) {
 		if c.WantSample() && !big {
 			c.Sample(map[string]any{"retained": refcodec.Describe(base), "later_messages": k - 1, "mode": mode})
 		}
+	})
+
+	// messages the reader may or may not accept: a valid message with one inner length or flag
+	// changed (a group member that claims more or less than it has, a group whose payload is not
+	// a list of AVPs, a fixed-width value of another size, a V bit flipped) under the generated
+	// and the default dictionary (Failed-AVP with an offending member copied as received).  The
+	// property is conditional: whatever the reader does return must not change afterwards
+	dctx := defCtx(t)
+	rec.Suite("doubtful-messages", rec.N(6000, 600000), func(c *ev.Case) {
+		r := c.R
+		cx, cmd := ctx, uint32(8388000)
+		var nodes []*refcodec.Node
+		if c.I%3 == 0 {
+			// default dictionary: an answer with Result-Code, Origin-Host and a Failed-AVP
+			cx, cmd = dctx, 257
+			inner := []*refcodec.Node{{Code: 257, Flags: 0x40, Kind: refcodec.Address, Fam: 1, B: []byte{10, byte(r.Uint32()), 3, 4}},
+				{Code: 0x00E10001, Flags: 0x80, Vendor: 31337, Kind: refcodec.Unknown, B: []byte{9, 8, 7, 6, 5, byte(r.Uint32())}}}
+			nodes = []*refcodec.Node{peer.U32(peer.ResultCode, 5005), peer.Str(peer.OriginHost, refcodec.DiameterIdentity, "a.b"),
+				{Code: 279, Flags: 0x40, Kind: refcodec.Grouped, Kids: inner},
+				{Code: 257, Flags: 0x40, Kind: refcodec.Address, Fam: 2, B: []byte{0x20, 1, 0xd, 0xb8, 0, 0, 0, 0, 0, 0, 0, 0, 0, 0, 0, byte(r.Uint32())}}}
+		} else {
+			nodes = c06Tree(c, false)
+		}
+		h := refcodec.Header{Version: 1, Flags: 0x80, Code: cmd, HopByHop: 1, EndToEnd: 1}
+		good := refcodec.EncodeMessage(h, nodes)
+		w := append([]byte(nil), good...)
+		// the length fields and flag bytes of every AVP at every depth
+		type spot struct{ off, length, depth int }
+		var spots []spot
+		var walk func(off, end, depth int)
+		walk = func(off, end, depth int) {
+			for off+8 <= end {
+				l := int(w[off+5])<<16 | int(w[off+6])<<8 | int(w[off+7])
+				if l < 8 || off+l > end {
+					return
+				}
+				spots = append(spots, spot{off, l, depth})
+				hl := 8
+				if w[off+4]&0x80 != 0 {
+					hl = 12
+				}
+				code := binary.BigEndian.Uint32(w[off:])
+				if code == 9018 || code == 279 {
+					walk(off+hl, off+l, depth+1)
+				}
+				off += (l + 3) &^ 3
+			}
+		}
+		walk(20, len(w), 0)
+		if len(spots) == 0 {
+			return
+		}
+		sp := spots[r.IntN(len(spots))]
+		kind := r.IntN(6)
+		switch kind {
+		case 0:
+			put24(w, sp.off+5, sp.length+1+r.IntN(40))
+		case 1:
+			put24(w, sp.off+5, max(0, sp.length-1-r.IntN(8)))
+		case 2:
+			w[sp.off+4] ^= 0x80
+		case 3:
+			put24(w, sp.off+5, 8+r.IntN(4))
+		case 4:
+			if sp.length > 8 {
+				w[sp.off+8+r.IntN(sp.length-8)] ^= byte(1 + r.IntN(255))
+			}
+		case 5:
+			binary.BigEndian.PutUint32(w[sp.off:], []uint32{9018, 279, 9009, 9015, 257}[r.IntN(5)])
+		}
+		c.Class("doubtful/%s/kind=%d/depth=%d", cx.Name, kind, sp.depth)
+		var m1 *diam.Message
+		var err error
+		if p, bad := guard(func() { m1, err = diam.ReadMessage(bytes.NewReader(w), cx.Parser) }); bad {
+			c.Fail(ev.Sig{"op": "panic", "site": panicSite(p)}, w, nil, "ReadMessage panicked: %s", p)
+			return
+		}
+		if err != nil || m1 == nil {
+			c.Event("doubtful_refused", 1)
+			return
+		}
+		before, err := snap(m1)
+		if err != nil {
+			c.Event("doubtful_not_serialisable", 1)
+			return
+		}
+		// later traffic: the valid message with other bytes, several times, and writes
+		for j := 1; j <= 3; j++ {
+			hh := h
+			hh.HopByHop = uint32(j + 1)
+			mj, err := diam.ReadMessage(bytes.NewReader(refcodec.EncodeMessage(hh, variant(nodes, byte(j)))), cx.Parser)
+			if err != nil {
+				c.Fail(ev.Sig{"op": "setup"}, nil, nil, "a later valid message was refused: %v", err)
+				return
+			}
+			mj.WriteTo(io.Discard)
+			mj.Answer(2001).WriteTo(io.Discard)
+		}
+		after, err := snap(m1)
+		if err != nil {
+			c.Fail(ev.Sig{"op": "retained-render-panic"}, w, nil, "rendering the retained message after further reads: %v", err)
+			return
+		}
+		if !bytes.Equal(after.wire, before.wire) || after.str != before.str || after.hdr != before.hdr {
+			c.Fail(ev.Sig{"op": "retained-changed", "what": "bytes", "how": "doubtful-message"}, w, map[string]any{"before": ev.Hex(before.wire), "after": ev.Hex(after.wire)},
+				"a message that the reader accepted (a valid message with one inner field changed, kind %d at depth %d, dictionary %s) changed after three further reads: its serialisation differs at byte %d", kind, sp.depth, cx.Name, firstDiff(after.wire, before.wire))
+			return
+		}
+		c.Event("doubtful_accepted_stable", 1)
+		c.Event("histories_checked", 1)
 	})
 
 	// long retention: messages kept across tens of thousands of later reads (any amortised
